@@ -146,8 +146,10 @@ class Program:
 def subst(e, sub):
     if e.op == "v":
         return sub.get(e.args[0], e)
-    if e.op == "c":
+    if e.op in ("c", "k"):
         return e
+    if e.op in ("max", "min", "pw"):
+        return X.E(e.op, *[subst(x, sub) for x in e.args])
     if e.op == "pow":
         return X.powi(subst(e.args[0], sub), e.args[1])
     if e.op == "fn":
@@ -383,12 +385,58 @@ def P16():
     )
 
 
+def P17():
+    """Structure rather than numbers: a state that appears on no right-hand side (not even its own) and sorts
+    first, a carried-over state (bias' = bias) that a sensor mixes with an evolving one, a state whose update
+    does not mention itself, and sensor Jacobian entries that are exact constants of three kinds
+    (integer 1, rational 1/2, the symbolic constant pi)."""
+    a_load, bias, pos, vel, push, lever, dt = V("a_load"), V("bias"), V("pos"), V("vel"), V("push"), V("lever"), V("dt")
+    return Program(
+        id="P17-structure",
+        state=["pos", "vel", "bias", "a_load"],
+        control=["push"],
+        calibration=["lever"],
+        update={"pos": pos + dt * vel, "vel": vel + dt * push, "bias": bias, "a_load": C(Fraction(1, 2)) * push},
+        process_noise={"push": 0.25},
+        sensors={"speed": {"m": vel + bias}, "mid": {"h": (pos + a_load) / 2 + lever}, "compass": {"c": pos * X.PI + bias, "d": vel * lever}},
+        sensor_noise={"speed": {"m": 0.5}, "mid": {"h": 0.25}, "compass": {"c": 0.125, "d": 0.375}},
+        calibration_values={"lever": 0.625},
+        note="unused-first state, carried-over state, self-free update, constant Jacobian entries 1, 1/2 and pi",
+    )
+
+
+def P18():
+    """Switching functions: two Piecewise updates in one block, Max / Min with integer-constant arguments."""
+    brake, throttle, v, cmd, dt = V("brake"), V("throttle"), V("v"), V("cmd"), V("dt")
+    return Program(
+        id="P18-switching",
+        state=["v", "throttle", "brake"],
+        control=["cmd"],
+        calibration=[],
+        update={
+            "brake": X.pw(cmd - v, brake + dt * cmd, brake / 2),
+            "throttle": X.pw(v, throttle + dt, throttle - dt * cmd),
+            "v": X.maxv(0, v + dt * (throttle - brake)) + X.minv(cmd, 10) * dt,
+        },
+        process_noise={"cmd": 0.25},
+        sensors={"speedo": {"s": X.maxv(v, 0) + brake}},
+        sensor_noise={"speedo": {"s": 0.5}},
+        ident_safe=True,
+        note="Piecewise x2, Max(0, .), Min(., 10): model-level checks only (not differentiable on the switching surfaces)",
+    )
+
+
 def quick_programs():
     return [P1(), P3(), P8()]
 
 
 def all_fixed():
-    return [P1(), P2(), P3(), P7(), P8(), P10(), P12(), P13(), P14(), P15(), P16()]
+    return [P1(), P2(), P3(), P7(), P8(), P10(), P12(), P13(), P14(), P15(), P16(), P17()]
+
+
+def catalogue():
+    """Every fixed program, including the model-level-only ones (replay looks programs up by id here)."""
+    return all_fixed() + [P11(), P18()]
 
 
 def with_noise(p, process=None, sensor=None, pid=None):
